@@ -72,6 +72,73 @@ impl Pay for HeapVal {
     }
 }
 
+/// Value that owns a tracked resource: every instance (made, cloned or defaulted) has a unique id in a
+/// thread-local registry; dropping an id twice or reading a dropped instance raises a flag that the
+/// explorer turns into a violation.  Makes a bitwise duplication of a value (two owners) observable
+/// deterministically instead of relying on the allocator to notice a double free.
+#[derive(Debug)]
+pub struct TrackVal {
+    key: u8,
+    bit: bool,
+    id: u64,
+}
+thread_local! {
+    static TRACK_LIVE: std::cell::RefCell<std::collections::HashSet<u64>> = std::cell::RefCell::new(std::collections::HashSet::new());
+    static TRACK_NEXT: std::cell::Cell<u64> = const { std::cell::Cell::new(1) };
+    static TRACK_FLAG: std::cell::Cell<u8> = const { std::cell::Cell::new(0) };
+}
+fn track_new() -> u64 {
+    let id = TRACK_NEXT.with(|n| {
+        let v = n.get();
+        n.set(v + 1);
+        v
+    });
+    TRACK_LIVE.with(|l| l.borrow_mut().insert(id));
+    id
+}
+/// 0 = nothing, 1 = a value was dropped twice, 2 = a dropped value was read
+pub fn track_take_flag() -> u8 {
+    TRACK_FLAG.with(|f| f.replace(0))
+}
+impl Default for TrackVal {
+    fn default() -> Self {
+        TrackVal { key: 0, bit: false, id: track_new() }
+    }
+}
+impl Clone for TrackVal {
+    fn clone(&self) -> Self {
+        if !TRACK_LIVE.with(|l| l.borrow().contains(&self.id)) {
+            TRACK_FLAG.with(|f| f.set(2));
+        }
+        TrackVal { key: self.key, bit: self.bit, id: track_new() }
+    }
+}
+impl Drop for TrackVal {
+    fn drop(&mut self) {
+        let was = TRACK_LIVE.try_with(|l| l.borrow_mut().remove(&self.id)).unwrap_or(true);
+        if !was {
+            let _ = TRACK_FLAG.try_with(|f| f.set(1));
+        }
+    }
+}
+impl PartialEq for TrackVal {
+    fn eq(&self, o: &Self) -> bool {
+        self.key == o.key && self.bit == o.bit
+    }
+}
+impl Pay for TrackVal {
+    const NAME: &'static str = "TrackVal";
+    fn mk(key: u8, bit: bool) -> Self {
+        TrackVal { key, bit, id: track_new() }
+    }
+    fn code(&self) -> u32 {
+        if !TRACK_LIVE.with(|l| l.borrow().contains(&self.id)) {
+            TRACK_FLAG.with(|f| f.set(2));
+        }
+        0x100 | ((self.key as u32) << 1) | self.bit as u32
+    }
+}
+
 #[derive(Clone, Default, Debug)]
 pub struct SVal<P> {
     pub key: IKey,
@@ -770,6 +837,11 @@ impl<S: MSub> MSys<S> {
                 }
             }
         }
+        match track_take_flag() {
+            1 => cx.violate(prop, "double-drop", "a stored value was dropped twice (two owners of one value)".into()),
+            2 => cx.violate(prop, "use-after-drop", "a value that had already been dropped was read or cloned".into()),
+            _ => {}
+        }
         ncb
     }
 
@@ -853,6 +925,11 @@ impl<S: MSub + Send> System for MSys<S> {
         rt::cb_reset(None);
         if guard(|| self.state_checks(o, cx)).is_err() {
             cx.violate(self.prop, "panic-in-observation", format!("an in-contract query panicked: {}", rt::last_panic()));
+        }
+        match track_take_flag() {
+            1 => cx.violate(self.prop, "double-drop", "a stored value was dropped twice (two owners of one value)".into()),
+            2 => cx.violate(self.prop, "use-after-drop", "a lookup returned a value that had already been dropped".into()),
+            _ => {}
         }
     }
     fn canon(&self, o: &MObj<S>, out: &mut Vec<u8>) {
